@@ -1,7 +1,9 @@
-(* Props_C05.v — the property theorems for C05 (the garbage-collection half; the
-   compaction-conserves-every-version half over apply_compaction lives in area Lsm) and nothing
-   else.  "GC discards only what policy permits ... never the entry that decides the current value
-   of a key."
+(* Props_C05.v — the property theorems for C05 and nothing else.
+   "A compaction that is not a garbage collection leaves the multiset of entries reachable through
+   the tree unchanged ...  A garbage collection removes only entries the configured policy allows
+   ... never the entry that decides the current value of a key."
+   The tree (levels, files, apply_compaction, reads) is area Lsm's model; Gc/Bridge_Conserve.v and
+   Gc/Bridge_Lsm.v join the two areas and are cited in sections 8 and 9 below.
 
    Objects (Gc/Model.v, transcribed from sst/src/gc.rs and lsmtk/src/tree/mod.rs):
      collect p es now      GarbageCollectionPolicy::collector(cursor over es, now) driven by next()
@@ -13,7 +15,9 @@
 From Coq Require Import NArith PArith List Bool Permutation.
 From Blue Require Import Gen.Const_Gc Setsum.Model Setsum.Proofs Gc.Model Gc.ModelLiteral Gc.Spec
   Gc.Discard Gc.Proofs_Key Gc.Proofs_Det Gc.Proofs_Collect Gc.Proofs_Walk Gc.Proofs_Discard
-  Gc.Proofs_Current Gc.Proofs_Literal Gc.Proofs_Index Gc.Proofs_Tree Gc.Proofs_Weak.
+  Gc.Proofs_Current Gc.Proofs_Literal Gc.Proofs_Index Gc.Proofs_Tree Gc.Proofs_Weak Gc.Proofs_Rewrite.
+From Blue Require Lsm.Model Lsm.LoadProofs Lsm.Ordered Lsm.SortLemmas Lsm.CompactProofs Lsm.GcProofs
+  Gc.Bridge_Conserve Gc.Bridge_Lsm.
 Import ListNotations.
 Open Scope N_scope.
 
@@ -78,6 +82,46 @@ Theorem C05_gc_sync_never_errors_weakly_sorted :
   forall (A : Type) (add : A -> entry -> A) acc0 p es,
   wsorted es -> gc_walk add acc0 p es <> WOutOfSync.
 Proof. intros A add acc0 p es Hs. now apply gc_walk_no_oos_weak. Qed.
+
+(* what the walk DOES guarantee on a weakly sorted input: it writes, for each KeyRef the collector
+   retains, in order, the leftmost input entry not yet passed that carries this KeyRef (mod.rs
+   compares KeyRefs only), every other entry goes to the discard accumulator, and written plus
+   dropped is the input.  So the KeyRefs written are exactly the KeyRefs the policy retains ... *)
+Theorem C05_walk_weakly_sorted_guarantee :
+  forall (A : Type) (add : A -> entry -> A) acc0 p es, wsorted es ->
+  exists written dropped,
+    gc_walk add acc0 p es = WOk written (fold_left add dropped acc0) /\
+    map kr written = map kr (gc_spec p 0 es) /\ sublist written es /\
+    Permutation es (written ++ dropped).
+Proof. intros A add acc0 p es Hs. now apply gc_walk_weak. Qed.
+
+(* ... but not necessarily the ENTRIES: with several entries of equal key and timestamp (reachable
+   only by ingesting foreign SSTs: the store's own sequence numbers are distinct) the statement
+   "the walk writes gc_spec" is false — known class K-duplicate-keyref.  Under versions = 3 on
+   [6b@5~; 6b@5~; 6b@5=01; 6b@4=02] the policy retains 6b@5~ 6b@5=01 6b@4=02, the walk writes
+   6b@5~ 6b@5~ 6b@4=02 and discards the value 6b@5=01 ... *)
+Definition Known_duplicate_keyref (es : list entry) : Prop := duplicate_pairs es.
+
+Theorem C05_walk_writes_spec_refuted :
+  exists p es, wsorted es /\
+    match gc_walk (fun (a : unit) _ => a) tt p es with
+    | WOk written _ => written <> gc_spec p 0 es /\
+                       exists e, In e (gc_spec p 0 es) /\ ~ In e written
+    | WOutOfSync => False
+    end.
+Proof.
+  exists (PVersions 3),
+    [mkE [107] 5 None; mkE [107] 5 None; mkE [107] 5 (Some [1]); mkE [107] 4 (Some [2])].
+  split; [cbn; repeat split; discriminate|]. vm_compute. split; [discriminate|].
+  exists (mkE [107] 5 (Some [1])). split; [auto|].
+  intros [H|[H|[H|[]]]]; discriminate.
+Qed.
+
+(* ... and true for every weakly sorted input outside the class *)
+Theorem C05_walk_writes_spec_outside_known :
+  forall (A : Type) (add : A -> entry -> A) acc0 p es, wsorted es -> ~ Known_duplicate_keyref es ->
+  gc_walk add acc0 p es = WOk (gc_spec p 0 es) (fold_left add (gc_dropped p 0 es) acc0).
+Proof. intros A add acc0 p es Hs Hnd. apply gc_walk_spec. now apply wsorted_no_dup_sorted. Qed.
 
 (* 3. discard = the setsum of exactly the dropped entries *)
 Theorem C05_discard_is_dropped : forall H, hash_ok H -> forall p es, sorted es ->
@@ -159,42 +203,41 @@ Qed.
 
 (* the same with the rest of the tree around the compaction and reads decided by TIMESTAMP (not by
    position in the merged input): [rest] = all entries of the files that are not inputs.
-   Full-strength statement: "a point read of k over the whole tree returns after the GC what it
-   returned before".  It is FALSE when some version of k outside the inputs is not newer than a
-   version inside (known class K1-inputs-not-closed: the selector of lsmtk can emit a top-level
-   compaction that skips an overlapping file of a level in between, see known_findings.txt — the
-   GC then drops a tombstone "with everything it shadows" while a shadowed value survives outside),
-   and true otherwise (the last level has nothing below it; with inputs closed under overlap
-   everything outside is newer: the tree-shape invariant of area Lsm). *)
-Definition Known_inputs_not_closed (rest es : list entry) (k : key) : Prop :=
-  exists x y, In x rest /\ In y es /\ ekey x = k /\ ekey y = k /\ ets x <= ets y.
+   Precondition inputs_closed_for rest es k: every version of k outside the inputs is newer than
+   every version inside.  The last level has nothing below it, so a compaction into it whose inputs
+   are closed under overlap has the precondition: C05_inputs_closed_from_tree_invariant (section 9)
+   derives it from area Lsm's Ordered + valid_compactionb.  (lsmtk's selector used to emit
+   top-level compactions that skipped an overlapping file of a level in between — F16/K1, repaired
+   by /repo commit 764f777, corpus/C05/30_lsm_k1_gc_resurrects.json; the second theorem keeps that
+   reproduction as the witness that the precondition cannot be dropped.) *)
+Theorem C05_tree_read_preserved : forall p, ~ Known_retain_nothing p ->
+  forall (A : Type) (add : A -> entry -> A) acc0 rest es k, sorted es ->
+  inputs_closed_for rest es k ->
+  exists written discard,
+    gc_walk add acc0 p es = WOk written discard /\
+    read (rest ++ written) k = read (rest ++ es) k.
+Proof.
+  intros p Hk A add acc0 rest es k Hs Hcl. rewrite gc_walk_spec by exact Hs.
+  eexists _, _. split; [reflexivity|]. apply gc_tree_read; [|exact Hs|exact Hcl].
+  unfold Known_retain_nothing in Hk. destruct (keeps_newest p); congruence.
+Qed.
 
-Theorem C05_tree_read_refuted :
-  exists p rest es k, keeps_newest p = true /\ sorted es /\
+Theorem C05_tree_read_needs_closed_inputs :
+  exists p rest es k, keeps_newest p = true /\ sorted es /\ ~ inputs_closed_for rest es k /\
     match gc_walk (fun (a : unit) _ => a) tt p es with
     | WOk written _ => read (rest ++ written) k <> read (rest ++ es) k
     | WOutOfSync => False
     end.
 Proof.
-  (* the reproduction found on the real store, reduced to key 6b: L13 6b@11~, L15 6b@4=83 are
-     inputs, L14 6b@8=63 is not; versions = 1 *)
+  (* the reproduction found on the real store before 764f777, reduced to key 6b: L13 6b@11~ and
+     L15 6b@4=83 are inputs, L14 6b@8=63 is not; versions = 1 *)
   exists (PVersions 1), [mkE [107] 8 (Some [99])],
          [mkE [107] 11 None; mkE [107] 4 (Some [131])], [107].
-  split; [reflexivity|]. split; [cbn; auto|]. vm_compute. discriminate.
-Qed.
-
-Theorem C05_tree_read_outside_known : forall p, ~ Known_retain_nothing p ->
-  forall (A : Type) (add : A -> entry -> A) acc0 rest es k, sorted es ->
-  ~ Known_inputs_not_closed rest es k ->
-  exists written discard,
-    gc_walk add acc0 p es = WOk written discard /\
-    read (rest ++ written) k = read (rest ++ es) k.
-Proof.
-  intros p Hk A add acc0 rest es k Hs Hnk. rewrite gc_walk_spec by exact Hs.
-  eexists _, _. split; [reflexivity|]. apply gc_tree_read; [|exact Hs|].
-  - unfold Known_retain_nothing in Hk. destruct (keeps_newest p); congruence.
-  - intros x y Hx Hy Hkx Hky. destruct (N.lt_ge_cases (ets y) (ets x)) as [Hlt|Hge]; [exact Hlt|].
-    exfalso. apply Hnk. exists x, y. auto.
+  split; [reflexivity|]. split; [cbn; auto|]. split.
+  - intros H. specialize (H (mkE [107] 8 (Some [99])) (mkE [107] 11 None)
+                            (or_introl eq_refl) (or_introl eq_refl) eq_refl eq_refl).
+    cbn in H. discriminate.
+  - vm_compute. discriminate.
 Qed.
 
 (* in a sorted input "first entry of the key" and "largest timestamp of the key" are the same read *)
@@ -216,9 +259,96 @@ Proof.
   intros _. split; [now apply N.eqb_eq|]. now apply N.eqb_neq.
 Qed.
 
-Theorem C05_rewrite_writes_everything : forall (A : Type) (acc0 : A) es,
-  rewrite_walk acc0 es = WOk es acc0.
-Proof. reflexivity. Qed.
+(* perform_compaction's loop through SstMultiBuilder, for EVERY size policy (target_full,
+   minimum_full are arbitrary predicates on the open builder's contents) and EVERY pattern of
+   split hints: the outputs, concatenated in the order seal() returns them, are the merged input,
+   entry for entry and in order, and no output file is empty *)
+Theorem C05_rewrite_writes_everything_once :
+  forall (target_full minimum_full : list entry -> bool) (main : list (bool * entry)),
+  concat (rewrite_outputs target_full minimum_full main) = map snd main /\
+  Forall (fun f => f <> []) (rewrite_outputs target_full minimum_full main).
+Proof. exact rewrite_outputs_spec. Qed.
+
+(* 8. THE FIRST HALF OF THE PROPERTY, over area Lsm's tree: a compaction that is not a garbage
+   collection leaves the multiset of (key, timestamp, value-or-tombstone) entries reachable through
+   the tree unchanged — for every admissible compaction of every version and every way of cutting
+   the sorted merge of its inputs into non-empty files (a key's versions straddling two files or
+   not) ... *)
+Theorem C05_compaction_conserves_entries : forall v c outs,
+  Lsm.Model.valid_compactionb v c = true -> Lsm.Model.outputs_okb v c outs = true ->
+  Permutation (Lsm.Model.file_entries (Lsm.Model.apply_compaction v c outs)) (Lsm.Model.file_entries v).
+Proof. exact Gc.Bridge_Conserve.valid_compaction_conserves_entries. Qed.
+
+(* ... in particular for what the rewrite loop above writes (any thresholds, any split hints) *)
+Theorem C05_rewrite_conserves_entries : forall v c target_full minimum_full main outs,
+  Lsm.Model.valid_compactionb v c = true ->
+  map snd main = map Gc.Bridge_Lsm.to_gc (Lsm.Model.sort_entries (Lsm.Model.input_entries v c)) ->
+  map Lsm.Model.fents outs = map (map Gc.Bridge_Lsm.of_gc) (rewrite_outputs target_full minimum_full main) ->
+  Permutation (Lsm.Model.file_entries (Lsm.Model.apply_compaction v c outs)) (Lsm.Model.file_entries v).
+Proof. exact Gc.Bridge_Lsm.rewrite_conserves_entries. Qed.
+
+(* 9. Gc joined to Lsm for a compaction into the LAST level that area Lsm admits
+   (valid_compactionb, which contains the overlap closure vc_closed) in a well-formed, Ordered
+   store; E = the sorted merge of its inputs, seen as a Gc input.
+   (a) E is strictly sorted, so every walk theorem above applies to it; *)
+Theorem C05_merged_inputs_sorted : forall s c,
+  Lsm.LoadProofs.wf_version (Lsm.Model.ver s) -> Lsm.Ordered.Ordered s ->
+  Lsm.Model.valid_compactionb (Lsm.Model.ver s) c = true ->
+  sorted (map Gc.Bridge_Lsm.to_gc (Lsm.Model.sort_entries (Lsm.Model.input_entries (Lsm.Model.ver s) c))).
+Proof. exact Gc.Bridge_Lsm.merged_inputs_sorted. Qed.
+
+(* (b) what the collector retains, cut anywhere into non-empty files, is what area Lsm accepts as
+   the outputs of a garbage collection (gc_outputs_okb), for every policy that retains a sole
+   newest version — so installing it preserves every point read (Lsm's gc_preserves_reads); *)
+Theorem C05_collector_outputs_admissible : forall v c outs p,
+  keeps_newest p = true ->
+  flat_map Lsm.Model.fents outs =
+    map Gc.Bridge_Lsm.of_gc (gc_spec p 0 (map Gc.Bridge_Lsm.to_gc (Lsm.Model.sort_entries (Lsm.Model.input_entries v c)))) ->
+  forallb (fun f => match Lsm.Model.fents f with [] => false | _ => true end) outs = true ->
+  Lsm.Model.gc_outputs_okb v c outs = true.
+Proof.
+  intros v c outs p Hk Hout Hne. apply (Gc.Bridge_Lsm.gc_spec_outputs_ok v c outs p Hk); auto.
+  apply Lsm.SortLemmas.sort_entries_ssorted.
+Qed.
+
+Theorem C05_gc_installed_preserves_reads : forall s c p outs k,
+  Lsm.LoadProofs.wf_version (Lsm.Model.ver s) -> Lsm.Ordered.Ordered s ->
+  Lsm.Model.valid_compactionb (Lsm.Model.ver s) c = true ->
+  keeps_newest p = true -> S (Lsm.Model.cupper c) = length (Lsm.Model.ver s) ->
+  flat_map Lsm.Model.fents outs =
+    map Gc.Bridge_Lsm.of_gc (gc_spec p 0 (map Gc.Bridge_Lsm.to_gc (Lsm.Model.sort_entries (Lsm.Model.input_entries (Lsm.Model.ver s) c)))) ->
+  forallb (fun f => match Lsm.Model.fents f with [] => false | _ => true end) outs = true ->
+  Lsm.GcProofs.hd_value (Lsm.Model.kview (Lsm.Model.compact s c outs) k) = Lsm.GcProofs.hd_value (Lsm.Model.kview s k) /\
+  Lsm.Ordered.desc_ts (Lsm.Model.kview (Lsm.Model.compact s c outs) k) /\
+  (forall e, In e (Lsm.Model.kview (Lsm.Model.compact s c outs) k) -> In e (Lsm.Model.kview s k)).
+Proof. intros s c p outs k Hw Ho Hv. exact (Gc.Bridge_Lsm.gc_installed_preserves_reads s c Hw Ho Hv p outs k). Qed.
+
+(* (c) the precondition of C05_tree_read_preserved is a consequence of the tree invariant: the view
+   of k is A ++ (its versions in the inputs) ++ B with B empty as soon as the inputs hold a version
+   of k, and everything in A is newer than everything in the inputs; *)
+Theorem C05_inputs_closed_from_tree_invariant : forall s c k outs,
+  Lsm.LoadProofs.wf_version (Lsm.Model.ver s) -> Lsm.Ordered.Ordered s ->
+  Lsm.Model.valid_compactionb (Lsm.Model.ver s) c = true ->
+  S (Lsm.Model.cupper c) = length (Lsm.Model.ver s) ->
+  exists A B, Lsm.Model.kview s k = A ++ Lsm.GcProofs.J s c k ++ B /\
+              Lsm.Model.kview (Lsm.Model.compact s c outs) k = A ++ Lsm.CompactProofs.K k outs ++ B /\
+              (Lsm.GcProofs.J s c k <> [] -> B = []) /\
+              inputs_closed_for (map Gc.Bridge_Lsm.to_gc A)
+                (map Gc.Bridge_Lsm.to_gc (Lsm.Model.sort_entries (Lsm.Model.input_entries (Lsm.Model.ver s) c))) k.
+Proof. intros s c k outs Hw Ho Hv. exact (Gc.Bridge_Lsm.inputs_closed_from_ordered s c Hw Ho Hv k outs). Qed.
+
+(* (d) the second half at tree level, as multisets: the entries reachable after the GC together
+   with the entries the policy let go are the entries reachable before *)
+Theorem C05_gc_conserves_entries_up_to_dropped : forall s c p outs,
+  Lsm.LoadProofs.wf_version (Lsm.Model.ver s) -> Lsm.Ordered.Ordered s ->
+  Lsm.Model.valid_compactionb (Lsm.Model.ver s) c = true ->
+  flat_map Lsm.Model.fents outs =
+    map Gc.Bridge_Lsm.of_gc (gc_spec p 0 (map Gc.Bridge_Lsm.to_gc (Lsm.Model.sort_entries (Lsm.Model.input_entries (Lsm.Model.ver s) c)))) ->
+  Permutation
+    (Lsm.Model.file_entries (Lsm.Model.apply_compaction (Lsm.Model.ver s) c outs) ++
+     map Gc.Bridge_Lsm.of_gc (gc_dropped p 0 (map Gc.Bridge_Lsm.to_gc (Lsm.Model.sort_entries (Lsm.Model.input_entries (Lsm.Model.ver s) c)))))
+    (Lsm.Model.file_entries (Lsm.Model.ver s)).
+Proof. intros s c p outs Hw Ho Hv. exact (Gc.Bridge_Lsm.gc_conserves_entries_up_to_dropped s c Hw Ho Hv p outs). Qed.
 
 (* ---- non-vacuity: concrete, non-trivial instances of the hypotheses and of the conclusions ---- *)
 Definition ex_key_a : key := [97].
@@ -245,3 +375,54 @@ Example ex_keeps_newest :
   keeps_newest (PAll [PVersions 2; PExpires 1]) = true /\
   keeps_newest (PAny []) = false /\ keeps_newest (PAll [PVersions 1; PAny []]) = false.
 Proof. vm_compute. auto. Qed.
+
+(* an instance of the tree-level theorem with a non-empty rest of the tree: a newer version of
+   key a and versions of another key live outside the inputs *)
+Definition ex_rest : list entry :=
+  [ mkE ex_key_a 12 (Some [9]); mkE [98] 1 (Some [7]); mkE [98] 11 None ].
+
+Example ex_inputs_closed :
+  inputs_closed_for ex_rest ex_input ex_key_a /\ inputs_closed_for ex_rest ex_input ex_key_b /\
+  read (ex_rest ++ gc_spec (PVersions 1) 0 ex_input) ex_key_a = Some [9] /\
+  read (ex_rest ++ ex_input) ex_key_b = Some [] /\
+  read (ex_rest ++ gc_spec (PVersions 1) 0 ex_input) ex_key_b = Some [].
+Proof.
+  split; [|split; [|vm_compute; auto]].
+  - intros x y Hx Hy Hkx Hky. cbn [In ex_rest] in Hx.
+    destruct Hx as [<-|[<-|[<-|[]]]]; try (cbn in Hkx; discriminate).
+    cbn [In ex_input] in Hy. cbn [ets].
+    repeat (destruct Hy as [<-|Hy]; [try reflexivity; cbn in Hky; discriminate|]). destruct Hy.
+  - intros x y Hx Hy Hkx Hky. cbn [In ex_rest] in Hx.
+    destruct Hx as [<-|[<-|[<-|[]]]]; cbn in Hkx; discriminate.
+Qed.
+
+(* hash_ok is satisfiable, and the books of the example balance under that hash *)
+Definition H_example (x : list N) : list N :=
+  map (fun i => (i * 37 + N.of_nat (length x) * 101 + 250) mod 256) (map N.of_nat (seq 0 32)).
+
+Example hash_ok_example : hash_ok H_example.
+Proof.
+  intros x. split.
+  - unfold bytes_ok, H_example. apply Forall_forall. intros b Hin.
+    apply in_map_iff in Hin. destruct Hin as (i & <- & _). apply N.mod_upper_bound. discriminate.
+  - unfold H_example. now rewrite !map_length, seq_length.
+Qed.
+
+Example ex_books_balance :
+  entries_setsum H_example ex_input
+  = add_state (entries_setsum H_example (gc_spec (PVersions 2) 0 ex_input))
+              (entries_setsum H_example (gc_dropped (PVersions 2) 0 ex_input)) /\
+  entries_setsum H_example (gc_dropped (PVersions 2) 0 ex_input) <> zero.
+Proof.
+  split; [apply C05_books_balance; [exact hash_ok_example|exact ex_input_sorted]|].
+  vm_compute. discriminate.
+Qed.
+
+(* the rewrite loop on a concrete input: a threshold of two entries per file and one split hint *)
+Example ex_rewrite :
+  rewrite_outputs (fun es => 2 <=? N.of_nat (length es)) (fun es => 1 <=? N.of_nat (length es))
+    [(false, mkE ex_key_a 9 None); (false, mkE ex_key_a 8 None); (false, mkE ex_key_a 7 (Some [1]));
+     (true, mkE ex_key_b 6 (Some [])); (false, mkE ex_key_b 5 None)]
+  = [[mkE ex_key_a 9 None; mkE ex_key_a 8 None]; [mkE ex_key_a 7 (Some [1])];
+     [mkE ex_key_b 6 (Some []); mkE ex_key_b 5 None]].
+Proof. vm_compute. reflexivity. Qed.
